@@ -21,6 +21,7 @@ def crc_table():
 def run(prog, chk):
     encode_table(prog, chk)
     crc_value_table(prog, chk)
+    encoder_table(prog, chk)
     chk.explanation = (
         "(R5) the base-32 encode table equals the RFC 4648 alphabet; the CRC table of crc32.c equals the table generated from polynomial "
         "0xEDB88320. (R6) one iteration of the decoder loop of KSI_base32Decode is evaluated for one representative of every character "
@@ -287,3 +288,82 @@ def const_sum(fn, e, var):
     if lvalue_key(e, fn) == var:
         return 0
     return None
+
+
+def ref_base32(data, group):
+    """RFC 4648 base-32 with '=' padding to a multiple of 8 symbols, a dash after every `group` characters (symbols and pads alike)
+    except at the very end - what a publication string is, written from the statement and the RFC, not from the source."""
+    alpha = "ABCDEFGHIJKLMNOPQRSTUVWXYZ234567"
+    bits = "".join("{:08b}".format(b) for b in data)
+    bits += "0" * ((5 - len(bits) % 5) % 5)
+    syms = [alpha[int(bits[k:k + 5], 2)] for k in range(0, len(bits), 5)]
+    syms += ["="] * ((8 - len(syms) % 8) % 8)
+    out = []
+    for k, c in enumerate(syms):
+        out.append(c)
+        if group and (k + 1) % group == 0 and k + 1 < len(syms):
+            out.append("-")
+    return "".join(out)
+
+
+def encoder_table(prog, chk):
+    """KSI_base32Encode itself (C17.encode.table checks what is handed to it): evaluated over input lengths 1..11 and 45 (a SHA-256
+    publication) x group lengths {0, 3, 6} with the output buffer modelled as a byte buffer of the size the function allocates: every
+    write lies inside the allocation, the result is NUL-terminated inside it, and for the groups of six of a publication string the
+    symbols equal the reference encoding."""
+    from ksirules.bufinterp import BufInterp
+    from ksirules.interp import TOP, Ptr, inline_model, succeed_model
+    from ksirules.model import AnalysisBroken
+    chk.rule("C17.encoder", "base-32 encoder: writes stay inside the buffer it allocates; groups of six equal the reference encoding (value table)", floor=20)
+    fn = prog.fn("KSI_base32Encode", "base32.c")
+    dp, lp, gp, ep = [p["n"] for p in fn.params]
+    deep = getattr(chk, "tier", "quick") == "thorough"
+    lens = list(range(1, 12)) + [45] + ([12, 13, 14, 15, 20, 41, 44] if deep else [41])
+    for n in lens:
+        data = [(37 * k + 11 * n + 5) & 0xff for k in range(n)]
+        for group in (6, 3, 0):
+            size = []
+
+            def calloc(I, p, node, args):
+                if not isinstance(args[0], int) or not isinstance(args[1], int):
+                    return TOP
+                size.append(args[0] * args[1])
+                I.buffers["ENC"] = args[0] * args[1]
+                return Ptr("ENC")
+            ov = {"KSI_calloc": calloc, "KSI_malloc": lambda I, p, node, a: calloc(I, p, node, [a[0], 1]), "KSI_free": lambda I, p, node, a: TOP}
+            inputs = {dp: Ptr("DATA"), lp: n, gp: group, ep: Ptr("OUTP")}
+            for k, v in enumerate(data):
+                inputs["DATA[%d]" % k] = v
+            for k in range(33):          # the symbol table as the source initialises it (its content is judged by C17.alphabet)
+                v = global_element(prog, "base32EncodeTable", k, "base32.c")
+                if isinstance(v, int):
+                    inputs["base32EncodeTable[%d]" % k] = v
+            I = BufInterp(fn, {"DATA": n}, inputs=inputs, call_model=inline_model(prog, {"readNextBits", "makeMask"}, fallback=succeed_model(prog, ov)), on_unknown="stop", prog=prog,
+                          loop_bound=2 * n + 40)
+            paths = I.run()
+            chk.paths += len(paths)
+            inst = "base32Encode[%d octets, groups of %d]" % (n, group)
+            if len(paths) != 1 or paths[0].undetermined or not size:
+                raise AnalysisBroken("KSI_base32Encode: evaluation not determined for %s: %s" % (inst, [q.undetermined[:1] for q in paths]))
+            q = paths[0]
+            B = size[0]
+            stores = [(i, v) for (b, i, v, ln) in I.buffer_stores(q) if b == "ENC"]
+            oob = sorted({i for i, v in stores if not (0 <= i < B)})
+            last = {}
+            for i, v in stores:
+                last[i] = v
+            text = []
+            k = 0
+            while k in last and isinstance(last[k], int) and last[k] != 0 and k < B + 64:
+                text.append(chr(last[k]))
+                k += 1
+            got = "".join(text)
+            terminated = last.get(k) == 0 and k < B
+            ok = q.ret == 0 and not oob and terminated
+            what = "allocation %d octets; writes outside it: %s; terminated inside: %s" % (B, ["[%d]" % i for i in oob] or "none", terminated)
+            if group == 6:
+                want = ref_base32(data, 6)
+                okref = got == want
+                ok = ok and okref
+                what += "; encoding %s the reference %s" % ("equals" if okref else "%r DIFFERS from" % got, "" if okref else repr(want))
+            chk.ob("C17.encoder", inst, ok, what, loc=fn.loc(), fn=fn)
